@@ -269,3 +269,101 @@ def c16_determinism(tier, seed, n=60):
             samples.append({"case": c, "flavor": fl})
     return {"evaluations": len(cases) * len(seeds), "nontrivial": nontrivial, "ties": [], "fails": fails, "samples": samples, "exhaustive": False,
             "what": f"{len(cases)} (engine, case) pairs, each run in {len(seeds)} fresh processes with different PYTHONHASHSEED and heap layout; all observations must be byte-identical"}
+
+
+# --------------------------------------------------------------------------------------------- C07 (re-arm)
+def c07_rearm(tier, seed):
+    """an aborted transition leaves the configuration as it was WITH the exited states' timers re-armed:
+    abort in exit / transition / entry lists (missing implementation), owner timer and sibling-region timer;
+    async engine on virtual time, sync engine with short real delays"""
+    import asyncio, time
+    from xstate_statemachine import create_machine, SyncInterpreter, Interpreter, MachineLogic
+    from xstate_statemachine.exceptions import XStateMachineError
+    from . import impl
+    fails = []
+    cases = []
+    for where in ("exit", "transition", "entry"):
+        for shape in ("owner", "sibling"):
+            if shape == "owner":
+                m = {"id": "m", "initial": "p", "states": {
+                    "p": {"initial": "c", "after": {"40": {"target": ".d"}} if False else {"40": "#m.p.d"},
+                          "states": {"c": {"on": {"GO": {"target": "#m.q"}}}, "d": {}}},
+                    "q": {}}}
+                m["states"]["p"] = {"initial": "c", "after": {"40": "#m.p.d"}, "states": {"c": {"on": {"GO": {"target": "#m.q"}}}, "d": {}}}
+                tr = m["states"]["p"]["states"]["c"]["on"]["GO"]
+                if where == "exit":
+                    m["states"]["p"]["exit"] = ["nosuch"]
+                elif where == "transition":
+                    tr["actions"] = ["nosuch"]
+                else:
+                    m["states"]["q"]["entry"] = ["nosuch"]
+                expect_after = ["m", "m.p", "m.p.d"]
+            else:
+                m = {"id": "m", "initial": "P", "states": {
+                    "P": {"type": "parallel", "states": {
+                        "r1": {"initial": "x", "states": {"x": {"after": {"40": "y"}}, "y": {}}},
+                        "r2": {"initial": "u", "states": {"u": {"on": {"GO": {"target": "#m.q"}}}}}}},
+                    "q": {}}}
+                tr = m["states"]["P"]["states"]["r2"]["states"]["u"]["on"]["GO"]
+                if where == "exit":
+                    m["states"]["P"]["states"]["r2"]["states"]["u"]["exit"] = ["nosuch"]
+                elif where == "transition":
+                    tr["actions"] = ["nosuch"]
+                else:
+                    m["states"]["q"]["entry"] = ["nosuch"]
+                expect_after = ["m", "m.P", "m.P.r1", "m.P.r1.y", "m.P.r2", "m.P.r2.u"]
+            cases.append((f"{shape}-{where}", m, expect_after))
+    evals = 0
+    for name, m, expect_after in cases:
+        # async, virtual time
+        async def go():
+            it = Interpreter(create_machine(json.loads(json.dumps(m)), logic=MachineLogic()))
+            await it.start()
+            await asyncio.sleep(0.010)
+            await it.send("GO")
+            await impl._drain(it)
+            before = sorted(x.id for x in it._active_state_nodes)
+            await asyncio.sleep(0.200)
+            await impl._drain(it)
+            after = sorted(x.id for x in it._active_state_nodes)
+            st = it.status
+            await it.stop()
+            return before, after, st
+        loop = impl.VirtualLoop()
+        loop.set_exception_handler(lambda _l, _c: None)
+        asyncio.set_event_loop(loop)
+        try:
+            before, after, st = loop.run_until_complete(go())
+        except Exception as e:
+            before, after, st = None, ["EXC:" + type(e).__name__], "?"
+        finally:
+            loop.close()
+            asyncio.set_event_loop(None)
+        evals += 1
+        if after != expect_after or st != "running":
+            fails.append({"kind": "abort-not-rearmed", "flavor": "async", "case": {"id": "rearm-" + name, "machine": m, "guards": {}, "events": ["GO"]},
+                          "detail": f"{name}: after the aborted GO the rolled-back state's timer must still fire: expected {expect_after}, got {after} (status {st}; configuration right after the abort {before})"})
+        # sync, real short delays
+        it = SyncInterpreter(create_machine(json.loads(json.dumps(m)), logic=MachineLogic())).start()
+        time.sleep(0.005)
+        err = None
+        try:
+            it.send("GO")
+        except XStateMachineError as e:
+            err = type(e).__name__
+        before = sorted(x.id for x in it._active_state_nodes)
+        deadline = time.time() + 0.6
+        after = before
+        while time.time() < deadline:
+            time.sleep(0.02)
+            after = sorted(x.id for x in it._active_state_nodes)
+            if after == expect_after:
+                break
+        st = it.status
+        it.stop()
+        evals += 1
+        if after != expect_after or st != "running" or err is None:
+            fails.append({"kind": "abort-not-rearmed", "flavor": "sync", "case": {"id": "rearm-" + name, "machine": m, "guards": {}, "events": ["GO"]},
+                          "detail": f"{name}: expected the error to be raised from send() and the rolled-back timer to fire: expected {expect_after}, got {after} (status {st}, raised {err}; right after the abort {before})"})
+    return {"evaluations": evals, "nontrivial": evals, "ties": [], "fails": fails, "samples": [{"machine": cases[0][1]}], "exhaustive": True,
+            "what": "abort (missing action) in exit / transition / entry lists x timer owned by the rolled-back state / by a sibling region, both engines: configuration restored, error reported, timer still fires"}
